@@ -631,3 +631,23 @@ def run(ck, prog):
 
 
 EXPLANATION += (' Sweep consistency: every branch that advances the row counters also assigns the previous-value local (E1-sibling); which_max compares each count with the running maximum, never two table entries with each other.')
+
+
+# ------------------------------------------------------------------ generic: no magnitude is compared with a signed raw element
+_run_pre_magnitude = run
+
+
+def run(ck, prog):
+    _run_pre_magnitude(ck, prog)
+    from sa import magnitude
+    magnitude.run_rule(ck, prog, set(DIMENSION_FILES))
+
+
+# ------------------------------------------------------------------ generic: backward strided scans (`j -= step`) continue exactly while j >= step
+_run_pre_subguard = run
+
+
+def run(ck, prog):
+    _run_pre_subguard(ck, prog)
+    from sa import subguard
+    subguard.run_rule(ck, prog, set(DIMENSION_FILES))
